@@ -54,7 +54,7 @@ def match_known(fail, known):
 
 
 def run(pid, tier, profile="mixed", own=None, nops=None, streams_per_cfg=None, extra_streams=None,
-        technique_note="", k3_programs=None):
+        technique_note="", k3_programs=None, tsan_modes=None):
     own = own or {pid}
     res = C.Result(pid, tier)
     rng = random.Random(C.seed() * 1000003 + sum(ord(x) for x in pid))
@@ -180,6 +180,10 @@ def run(pid, tier, profile="mixed", own=None, nops=None, streams_per_cfg=None, e
             res.add_broken("K3 oracle: an explored schedule of a same-key program is not linearizable / breaks the protocol (%s)" % pid)
         res.cov["k3_executions"] = out3["executions"]
         res.cov["k3_failures"] = len(out3["failures"])
+    if tsan_modes:
+        # values handed to the caller must be read under the bucket lock: free-running wrappers under ThreadSanitizer
+        import k3check
+        k3check.tsan_runs(res, tier, known, modes=tuple(tsan_modes))
     res.assumptions += [
         "theorems are about the executable model lean/Cuckoo/Model; K2 ties it to /repo's current headers on every run",
         "helper threads (max_num_worker_threads > 0) are exercised only at the level of results, not layouts",
